@@ -14,6 +14,49 @@ CHARS = ["a", "b", "\n", "é", "ß", "€", "\U0001F600", "\x00", "\x7f", "ÿ", 
          "\r", "\t", "\x04", "\x03", "\x1b"]      # control characters travel unchanged: CR, TAB, ^D, ^C, ESC
 
 
+def rle_runs(xs, maxp=48):
+    """[(count, pattern)] with concat(pattern * count) == xs: periodic stretches (period <= maxp, at least 3
+    repetitions) are folded, the rest stays literal"""
+    xs = list(xs)
+    out, lit, i, n = [], [], 0, len(xs)
+    while i < n:
+        best = None
+        for p in range(1, min(maxp, (n - i) // 3) + 1):
+            if xs[i:i + p] == xs[i + p:i + 2 * p] == xs[i + 2 * p:i + 3 * p]:
+                c = 3
+                while xs[i + c * p:i + (c + 1) * p] == xs[i:i + p]:
+                    c += 1
+                best = (p, c)
+                break
+        if best and best[0] * best[1] >= 12:
+            if lit:
+                out.append((1, lit))
+                lit = []
+            out.append((best[1], xs[i:i + best[0]]))
+            i += best[0] * best[1]
+        else:
+            lit.append(xs[i])
+            i += 1
+    if lit:
+        out.append((1, lit))
+    return out
+
+
+def nl_long(xs):
+    """Coq [list N]: literal when short, run-length form (Corr.C13Corr.rle) when long"""
+    xs = [int(x) for x in xs]
+    if len(xs) <= 64:
+        return nl(xs)
+    runs = rle_runs(xs)
+    back = [x for c, pat in runs for _ in range(c) for x in pat]
+    assert back == xs                     # the printer denotes the value it was given
+    return "(rle [" + "; ".join("(%d, [%s])" % (c, ";".join(map(str, pat))) for c, pat in runs) + "])%N"
+
+
+def text_long(sx):
+    return nl_long(ord(c) for c in sx)
+
+
 def unit_coq(u):
     return nl(u) if not isinstance(u, str) else text(u)
 
@@ -43,7 +86,156 @@ def script_of(case):
 
 
 def opt_bytes(b):
-    return "None" if b is None else "(Some %s)" % nl(b)
+    return "None" if b is None else "(Some %s)" % nl_long(b)
+
+
+# --------------------------------------------------------------------------- real input streams
+# case["in"] = {"mode": "text", "tty": False, "kind": memory|file|pipe|proxy, "fenc": the FILE's encoding,
+#               "newline": "raw" (newline="") | "universal" (newline=None), "content": [[str, repeat], ...]}
+# The content runs are what is written (encoded with fenc) to the file / pipe; the text "available on the
+# input stream" is what the stream's own text layer makes of it (decoded with fenc, newlines translated as
+# opened) -- obtained from an independent, identical text layer over the same bytes.
+KIND = {"memory": "KMemory", "file": "KFile", "pipe": "KPipe", "proxy": "KProxy"}
+NEWLINE = {"raw": "", "universal": None}
+MARKS = (1000, 2000, 4096, 8192)
+FAST_SLEEP = 0.00002          # Runner.input_sleep for the long inputs (configuration; the default is 10 ms per read)
+
+
+def content_of(runs):
+    return "".join(s * int(n) for s, n in runs)
+
+
+class FdProxy:
+    """duck-typed in_stream: fileno() / read() / isatty() delegating to an open text file; no .buffer,
+    no .encoding -- "any stream-like object" with a real descriptor"""
+
+    def __init__(self, f):
+        self._f = f
+
+    def fileno(self):
+        return self._f.fileno()
+
+    def read(self, n=-1):
+        return self._f.read(n)
+
+    def isatty(self):
+        return False
+
+    def close(self):
+        self._f.close()
+
+
+def ref_text(st, content):
+    """the text an identical text layer yields for the same bytes"""
+    if st["kind"] == "memory":
+        return io.StringIO(content).read()
+    return io.TextIOWrapper(io.BytesIO(content.encode(st.get("fenc", "utf-8"))), encoding=st.get("fenc", "utf-8"),
+                            newline=NEWLINE[st.get("newline", "raw")]).read()
+
+
+def open_stream(st, content):
+    """-> (stream object for in_stream, the text its text layer yields, cleanup())"""
+    import tempfile
+    kind, fenc, nlm = st["kind"], st.get("fenc", "utf-8"), NEWLINE[st.get("newline", "raw")]
+    if kind == "memory":
+        return io.StringIO(content), ref_text(st, content), (lambda: None)
+    data = content.encode(fenc)
+    ref = ref_text(st, content)
+    if kind in ("file", "proxy"):
+        fd, path = tempfile.mkstemp(prefix="c13-in-", dir=core.BUILD)
+        with os.fdopen(fd, "wb") as fh:
+            fh.write(data)
+        f = open(path, "r", encoding=fenc, newline=nlm)
+        stream = FdProxy(f) if kind == "proxy" else f
+
+        def cleanup():
+            try:
+                f.close()
+            finally:
+                os.unlink(path)
+        return stream, ref, cleanup
+    if kind == "pipe":
+        rfd, wfd = os.pipe()
+        if len(data) > 60000:
+            import fcntl
+            fcntl.fcntl(wfd, 1031, 1 << 20)         # F_SETPIPE_SZ: the whole input fits, the writer never blocks
+        os.write(wfd, data)
+        os.close(wfd)                               # writer done: the descriptor is readable from now on (data, then EOF)
+        f = open(rfd, "r", encoding=fenc, newline=nlm)
+
+        def cleanup():
+            try:
+                f.close()
+            except OSError:
+                pass
+        return f, ref, cleanup
+    raise ValueError(kind)
+
+
+def sweep_runs(ch, k, total, tail="\n"):
+    """k ASCII characters, then the multi-byte character `ch` repeated until the UTF-8 length passes `total`:
+    with k = 0..3 a character lies across every byte offset that is a multiple of anything (1000, 2000, 4096,
+    8192 ...) for some k"""
+    w = len(ch.encode("utf-8"))
+    return [["x", k], [ch, (total - k) // w + 2], [tail, 1]]
+
+
+def stream_family(tier, seed):
+    """systematic real-stream cases: kind x character width x offset 0..3 x length class x newline mode x
+    transcoding, with the command finishing early / late / in between and echo on / default / off"""
+    quick = tier == "quick"
+    out = []
+    cnt = [seed]
+
+    def add(kind, runs, enc="utf-8", fenc="utf-8", newline="raw"):
+        i = cnt[0]
+        cnt[0] += 1
+        st = {"mode": "text", "tty": False, "kind": kind, "fenc": fenc, "newline": newline, "content": runs}
+        text_len = len(ref_text(st, content_of(runs)).encode(enc, "replace"))
+        evs = [[["exit", 0]], [["in_wait", text_len], ["exit", 0]], [["in_wait", text_len // 2], ["exit", i % 2]]][i % 3]
+        if len(content_of(runs)) > 1500:
+            # long inputs: the command finishes at once (while the main thread still polls, forwarding is
+            # slower; every wait of the driver stays far below its bound also on a loaded machine)
+            evs = [["exit", i % 2]]
+        c = {"events": evs, "enc": enc, "in": st,
+             "pty": i % 7 == 3, "hide": "both", "respond": None, "warn": True, "out_given": i % 2 == 0}
+        e = (True, None, False, True)[i % 4]
+        if e is not None:
+            c["echo_stdin"] = e
+        out.append(c)
+
+    L1, L2, L4, L8 = 1010, 2010, 4100, 8200
+    fp = ("file", "pipe")
+    for k in range(4):
+        a, b = fp[k % 2], fp[(k + 1) % 2]
+        for kind in fp:
+            add(kind, sweep_runs("\U0001F600", k, L2))                 # 4-byte characters across 1000 and 2000
+        if k:                                                          # (4 divides every mark: k = 0 straddles nothing)
+            add(a, sweep_runs("\U0001F600", k, L4))                    # ... 4096
+            if not quick or k == 1 + seed % 3:                         # (quick: the other offsets run on real children)
+                add(b, sweep_runs("\U0001F600", k, L8))                # ... 8192 (and every multiple of 1000 below)
+        add(("file", "pipe", "proxy", "file")[k], sweep_runs("\u20ac", k, L2))      # 3-byte
+        if k < 2:
+            add(a, sweep_runs("\u00e9", k, L2))                        # 2-byte
+        add("memory" if k % 2 else "proxy", sweep_runs("\U0001F600", k, L1))
+        # "\r\n" line ends in a file opened with universal newlines / untranslated; 7-byte lines put CR LF at
+        # every residue around the marks as k varies
+        add(a, [["x", k], ["ab\u20ac\r\n", (L2 if k == seed % 4 else L1) // 7 + 2], ["end\rmid\n", 1]], newline="universal")
+        if k < 2:
+            add(b, [["x", k], ["ab\u20ac\r\n", L1 // 7 + 2]], newline="raw")
+        # the text layer transcodes: file encoding != effective encoding of the run
+        if k < 2:
+            add(a, sweep_runs("\u00e9", k, L1), fenc="latin-1")        # 1 byte in the file, 2 for the child
+            add(b, sweep_runs("\u00e9", k, L2), enc="latin-1")         # 2 bytes in the file, 1 for the child
+            add(a, [["x", k], ["\u00e9a\r\n", L1 // 3]], fenc="cp1252", newline="universal")
+        add(b, sweep_runs("\u20ac", k, L1), fenc="utf-16")
+    if not quick:
+        for k in range(4):
+            for kind in ("file", "pipe", "proxy", "memory"):
+                for ch in ("\u00e9", "\u20ac", "\U0001F600"):
+                    for total in (L1, L2, L4, L8, 2 * L8):
+                        add(kind, sweep_runs(ch, k, total), newline=("raw", "universal")[k % 2])
+    return out
 
 
 class _Enc:
@@ -64,14 +256,24 @@ class C13(Prop):
             "(bytes units, one read each) streams, texts over ASCII / 2-4-byte characters / NUL, empty input, "
             "availability patterns (units delivered before the command finishes, units already available when "
             "it finishes, EOF before / after exit, no EOF), echo_stdin in {None,True,False} x isatty x pty, "
-            "in_stream=False with an always-answering watcher, encodings utf-8/latin-1/ascii.  Non-trivial = at "
-            "least one input unit or a watcher response; distinct by the whole case")
+            "in_stream=False with an always-answering watcher, encodings utf-8/latin-1/ascii; plus the kind of input "
+            "stream: REAL text streams handed to the same scripted Runner (regular file / pipe read end behind a "
+            "TextIOWrapper / duck-typed object with fileno() / StringIO; file encoding utf-8, latin-1, cp1252, utf-16, "
+            "utf-32 ... = or != the effective encoding; newline='' or universal newlines) holding texts just over "
+            "1000/2000/4096/8192 encoded bytes with 2-/3-/4-byte characters at offsets 0..3 around every mark and "
+            "CR LF line ends, the command finishing early / late / in between (systematic family + random).  "
+            "Non-trivial = at least one input unit or a watcher response (real streams: non-empty text); distinct by "
+            "the whole case")
     trusted_base = [
         "Coq 8.16.1 kernel + vm_compute (shard evaluation, refutation witnesses)",
         "hand-written model coq/Model/StdinModel.v (+ Utf8Model.v, encode in Common/ByteText.v) tied to "
         "invoke/runners.py (handle_stdin, read_our_stdin, write_proc_stdin, should_echo_stdin, respond, "
         "create_io_threads) by differential execution through harness/runner_common.py ScriptedRunner",
         "encoder model validated against CPython str.encode (this run)",
+        "hand-written coq/Model/InStreamModel.v (what read_our_stdin asks of a non-terminal stream by kind of "
+        "object) tied to the code by the real-stream cases; CPython's io text layer (TextIOWrapper / StringIO) "
+        "defines the text available on a real stream: the reference is an identical text layer over the same bytes",
+        "run-length printer of long lists (harness/props/c13.py nl_long, self-checked) and Corr.C13Corr.rle",
         "harness/runner_common.py (scripted input stream, readiness shim), harness/props/c13.py, harness/coqterm.py",
         "CPython 3.12 executing VERIF_REPO; Linux pipe semantics for the real-child runs",
     ]
@@ -79,6 +281,9 @@ class C13(Prop):
         "OS contract: select()/FIONREAD readiness and the pipe to the child are assumed (ready_for_reading is "
         "answered by the script; bytes_to_read is 1 for the scripted streams); closing the write end gives the "
         "child EOF after it drained the pipe",
+        "real input streams: a regular file, and a pipe whose writer has written everything and closed, are always "
+        "ready for select() (a pipe that stays open is F-C13b); the runs use input_sleep = 20 us instead of 10 ms "
+        "(configuration; latency is not part of the statement)",
         "after the command has finished, input that is not already available is not waited for (by design of the "
         "code and of the spec: 'deliverable')",
         "texts are encodable in the effective encoding (otherwise out of scope: the worker dies with "
@@ -93,7 +298,59 @@ class C13(Prop):
     ]
 
     # ------------------------------------------------------------------ cases
+    REAL_P = 0.015
+
+    def _real_case(self, rng):
+        """random real-stream case: mixed text (ASCII, 2-4-byte characters, CR / LF / CR LF) of random length,
+        often just past one of the marks, any kind / file encoding / newline mode / effective encoding"""
+        enc = rng.choice(["utf-8"] * 5 + ["latin-1", "ascii"])
+        kind = rng.choice(["file", "file", "pipe", "pipe", "proxy", "memory"])
+        if enc == "utf-8":
+            pool = ["a", "b", " ", "\n", "\r\n", "\r", "\u00e9", "\u00df", "\u20ac", "\U0001F600", "\u0100", "\t", "\x00"]
+            fenc = rng.choice(["utf-8"] * 4 + ["utf-16", "utf-16-le", "utf-32", "utf-8-sig"])
+        elif enc == "latin-1":
+            pool = ["a", "b", "\n", "\r\n", "\u00e9", "\u00ff", "\u00df", "\x00"]
+            fenc = rng.choice(["utf-8", "utf-8", "latin-1", "utf-16", "cp1252"])
+        else:
+            pool = ["a", "b", "\n", "\r\n", "\x7f", "\t", "\x00"]
+            fenc = rng.choice(["utf-8", "ascii", "latin-1", "utf-16"])
+        if kind == "memory":
+            fenc = "utf-8"
+        marks = MARKS if getattr(self, "_tier", "quick") != "quick" else (MARKS[0], MARKS[0], MARKS[1])
+        target = rng.choice([0, 1, 5, 40, 300, 600] + [m + rng.randrange(-3, 12) for m in marks])
+        if rng.random() < 0.5:
+            # a few long runs
+            runs, size = [], 0
+            while size < target:
+                ch = rng.choice(pool)
+                n = rng.choice([1, 1, 2, 3, 7, 50, 333, 1000])
+                runs.append([ch, n])
+                size += len((ch * n).encode(fenc))
+        else:
+            # a random line, repeated
+            line = "".join(rng.choice(pool) for _ in range(rng.randint(1, 9)))
+            runs = [["x", rng.randrange(4)], [line, target // max(1, len(line.encode(fenc))) + 1]]
+        st = {"mode": "text", "tty": False, "kind": kind, "fenc": fenc,
+              "newline": rng.choice(["raw", "universal"]), "content": runs}
+        text_len = len(ref_text(st, content_of(runs)).encode(enc, "replace"))
+        evs = rng.choice([[["exit", rng.choice([0, 0, 1])]],
+                          [["in_wait", text_len], ["exit", 0]],
+                          [["in_wait", rng.randrange(text_len + 1)], ["exit", 0]]])
+        if len(content_of(runs)) > 1500:
+            evs = [["exit", rng.choice([0, 1])]]          # long inputs: see stream_family
+        case = {"events": evs, "enc": enc, "in": st,
+                "pty": rng.random() < 0.2, "hide": rng.choice(["both", "both", "none", "stdout"]),
+                "respond": None, "warn": True, "async": rng.random() < 0.15,
+                "out_given": rng.random() < 0.5, "enc_from": rng.choice(["kwarg", "kwarg", "config"])}
+        e = rng.choice(["none", "true", "true", "false"])
+        if e != "none":
+            case["echo_stdin"] = (e == "true")
+            case["echo_from"] = rng.choice(["kwarg", "kwarg", "config"])
+        return case
+
     def _case(self, rng):
+        if rng.random() < self.REAL_P:
+            return self._real_case(rng)
         enc = rng.choice(["utf-8"] * 6 + ["latin-1", "latin-1", "ascii"])
         r = rng.random()
         if r < 0.12:
@@ -161,12 +418,16 @@ class C13(Prop):
     phases = None
 
     def setup(self, tier, seed):
+        self._seed = seed if isinstance(seed, int) else 0
         self.phases = rc.Phases()
         self.phases.mark("proof build (incl. waiting for the shared build lock)")
 
     def generate(self, rng, tier, n):
         if self.phases:
             self.phases.mark("scripted cases + shards")
+        self._tier = tier
+        for c in stream_family(tier, getattr(self, "_seed", 0)):
+            yield c
         for _ in range(n):
             yield self._case(rng)
 
@@ -187,10 +448,34 @@ class C13(Prop):
                                 if echo is not None:
                                     c["echo_stdin"] = echo
                                 yield c
+        # real streams: every kind x straddle offset at the first mark x echo x when the command finishes
+        for kind in ("memory", "file", "pipe", "proxy"):
+            for k in range(4):
+                for echo in (None, True):
+                    for late in (False, True):
+                        runs = sweep_runs("\U0001F600", k, MARKS[0] + 8)
+                        n = len(content_of(runs).encode())
+                        c = {"events": ([["in_wait", n]] if late else []) + [["exit", 0]], "enc": "utf-8",
+                             "in": {"mode": "text", "tty": False, "kind": kind, "fenc": "utf-8", "newline": "raw",
+                                    "content": runs},
+                             "pty": False, "hide": "both", "respond": None, "warn": True}
+                        if echo is not None:
+                            c["echo_stdin"] = echo
+                        yield c
 
     # ------------------------------------------------------------------ impl
     def run_impl(self, case):
-        o = rc.run_scripted(dict(case))
+        st = case.get("in")
+        stream_text = None
+        if st and st.get("kind"):
+            # a REAL stream object as in_stream; the ScriptedRunner still records what the child's stdin gets
+            stream, stream_text, cleanup = open_stream(st, content_of(st["content"]))
+            try:
+                o = rc.run_scripted(dict(case), in_stream=stream, input_sleep=FAST_SLEEP)
+            finally:
+                cleanup()
+        else:
+            o = rc.run_scripted(dict(case))
         died = "UnicodeEncodeError" in (o.get("thread_excs") or [])
         w = o["stdin_writes"]
         log = o["stdin_log"]
@@ -205,7 +490,27 @@ class C13(Prop):
             "terminated": "handle_stdin" not in o["alive_after"] and not o["hang"],
             "responses": [b for chunk in w["out"] + w["err"] for b in chunk],
             "thread_excs": o.get("thread_excs"),
+            "stream_text": stream_text,
         }
+
+    def finish_at(self, case, obs):
+        """real streams: the read before which the command finishes (only roughly known -- the worker reads on
+        its own; the model's result does not depend on it: C13_stream_kind_irrelevant)"""
+        n = None
+        for ev in case["events"]:
+            if ev[0] == "in_wait":
+                n = ev[1]
+            elif ev[0] == "exit":
+                break
+        if n is None:
+            return 0
+        t = obs.get("stream_text") or ""
+        size = 0
+        for i, ch in enumerate(t):
+            size += len(ch.encode(case["enc"], "replace"))
+            if size > n:
+                return i
+        return len(t) + 1
 
     def responses_of(self, case):
         if not case.get("respond"):
@@ -223,20 +528,32 @@ class C13(Prop):
         stream = "None" if not st else "(Some (%s, %s))" % ("MBytes" if st["mode"] == "bytes" else "MText",
                                                             ct.b(bool(st.get("tty"))))
         echo = "None" if "echo_stdin" not in case else "(Some %s)" % ct.b(case["echo_stdin"])
+        real = "None"
+        if st and st.get("kind"):
+            real = "(Some (mkReal %s (N.to_nat %d%%N) %s))" % (KIND[st["kind"]], self.finish_at(case, obs),
+                                                             text_long(obs["stream_text"]))
         i = "(mkSin %s %s %s %s %s %s)" % (
             ENC[case["enc"]], stream, echo, ct.b(case["pty"]), script_of(case),
             "[" + ";".join(text(r) for r in self.responses_of(case)) + "]")
         o = "(mkSobs %s %s %s %s %s)" % (
-            opt_bytes(obs["received"]), ct.n(obs["closes"]), text(obs["echo"]), ct.b(obs["terminated"]),
+            opt_bytes(obs["received"]), ct.n(obs["closes"]), text_long(obs["echo"]), ct.b(obs["terminated"]),
             opt_bytes(obs["responses"]))
-        return "(mk %s %s %s %s %s)" % (i, ct.b(obs["done"]), ct.b(obs.get("close_last", True)),
-                                        ct.b(obs.get("silent", True)), o)
+        return "(mk %s %s %s %s %s %s)" % (i, real, ct.b(obs["done"]), ct.b(obs.get("close_last", True)),
+                                           ct.b(obs.get("silent", True)), o)
 
     def nontrivial(self, case, obs):
+        if (case.get("in") or {}).get("kind"):
+            return bool(obs.get("stream_text"))
         return any(e[0] == "in" for e in case["events"]) or bool(self.responses_of(case))
 
     def classify(self, case, obs):
         st = case.get("in")
+        if st and st.get("kind"):
+            n = len((obs.get("stream_text") or "").encode(case["enc"], "replace"))
+            size = "<1000" if n < 1000 else "<2000" if n < 2000 else "<4096" if n < 4096 else "<8192" if n < 8192 else ">=8192"
+            return "%s real-%s(%s%s) %s bytes%s" % (case["enc"], st["kind"], st.get("fenc", "utf-8"),
+                                                    ",universal-nl" if st.get("newline") == "universal" else "",
+                                                    size, " pty" if case["pty"] else "")
         return "%s %s%s%s" % (case["enc"], "no-stream" if not st else st["mode"] + ("-tty" if st["tty"] else ""),
                               " pty" if case["pty"] else "", " respond" if case.get("respond") else "")
 
@@ -272,6 +589,24 @@ class C13(Prop):
     def shrink_candidates(self, case):
         if not self._budget.ok():
             return
+        st = case.get("in")
+        if st and st.get("kind"):
+            runs = st["content"]
+
+            def with_runs(r):
+                return dict(case, **{"in": dict(st, content=r)})
+            for i in range(len(runs)):
+                yield with_runs(runs[:i] + runs[i + 1:])
+            for i, (sx, n) in enumerate(runs):
+                for m in (n // 2, n - 1):
+                    if 0 < m < n:
+                        yield with_runs(runs[:i] + [[sx, m]] + runs[i + 1:])
+            if len(case["events"]) > 1:
+                yield dict(case, events=[e for e in case["events"] if e[0] == "exit"])
+            if st.get("newline") == "universal":
+                yield dict(case, **{"in": dict(st, newline="raw")})
+            if st.get("fenc", "utf-8") != case["enc"] and st["kind"] != "memory":
+                yield dict(case, **{"in": dict(st, fenc=case["enc"])})
         evs = case["events"]
         for i in range(len(evs)):
             if evs[i][0] != "exit":
@@ -305,7 +640,8 @@ class C13(Prop):
     def extra_checks(self, tier, seed):
         if self.phases:
             self.phases.mark("extra checks")
-        res = [self._encoder_validation(tier, seed), self._real_children(tier, seed)]
+        res = [self._encoder_validation(tier, seed), self._real_stream_children(tier, seed),
+               self._real_children(tier, seed)]
         if self.phases:
             self.phases.mark("end")
             res.append(self.phases.entry())
@@ -340,6 +676,31 @@ class C13(Prop):
                 "note": "Common/ByteText.encode vs CPython str.encode (strict) on boundary code points (incl. "
                         "surrogates, U+10FFFF), all pairs of them, and random strings, x 3 encodings"}
 
+    def _real_stream_children(self, tier, seed):
+        """real `cat > file` children fed from real text streams (file / pipe / proxy / memory) holding long
+        texts with multi-byte characters across the 1000/2000/4096/8192-byte marks: what the child received is
+        compared byte for byte with text.encode(effective encoding), the mirror with the text"""
+        from invoke.runners import Local
+
+        class FastLocal(Local):
+            input_sleep = FAST_SLEEP          # configuration: pause between two reads of the input stream
+
+        fails, evals = [], 0
+        for c in real_stream_cases(tier, seed if isinstance(seed, int) else 0):
+            evals += 1
+            f = real_stream_case(c, FastLocal)
+            if f:
+                fails.append(f)
+                if len(fails) >= 3:
+                    break
+        return {"name": "real-stream-children", "evaluations": evals, "failures": fails,
+                "note": "Local runner (input_sleep=%g) with `cat > file` children; in_stream = regular text file / "
+                        "pipe read end behind a TextIOWrapper / duck-typed object with fileno() / StringIO, file "
+                        "encodings utf-8, latin-1, utf-16, cp1252 (transcoding text layer), universal and raw newlines, "
+                        "texts just over 1000, 2000, 4096 and 8192 encoded bytes with 2-, 3- and 4-byte characters at "
+                        "offsets 0..3 (so a character lies across every mark), echo on and off; plus a helper "
+                        "interpreter whose own sys.stdin is a redirected file (in_stream not given)" % FAST_SLEEP}
+
     def _real_children(self, tier, seed):
         fails, evals = [], 0
         budget = rc.ExtraBudget(tier, 30.0)
@@ -356,6 +717,125 @@ class C13(Prop):
                         "real cat / wc -c / head -c children fed from StringIO / BytesIO input streams through "
                         "Local (no pty: EOF must reach the child, which then terminates; broken pipe tolerated), "
                         "in_stream=False with a Responder, head -n1 under a pty"}
+
+
+def real_stream_cases(tier, seed):
+    quick = tier == "quick"
+    L1, L2, L4, L8 = 1010, 2010, 4100, 8200
+    fp = ("file", "pipe")
+    cs = []
+
+    def add(kind, runs, enc="utf-8", fenc="utf-8", newline="raw", **kw):
+        cs.append(dict({"kind": kind, "content": runs, "enc": enc, "fenc": fenc, "newline": newline,
+                        "echo": (len(cs) + seed) % 3 != 2}, **kw))
+
+    if quick:
+        for k in range(4):
+            a, b = fp[k % 2], fp[(k + 1) % 2]          # (the scripted family uses the kinds the other way round)
+            if k:
+                add(a, sweep_runs("\U0001F600", k, L8))
+                add(b, sweep_runs("\U0001F600", k, L1))
+        add("file", sweep_runs("\U0001F600", 0, L2))
+        add("proxy", sweep_runs("\u20ac", 1, L2))
+        add("pipe", sweep_runs("\u00e9", 1, L2))
+        add("memory", sweep_runs("\U0001F600", 2, L1))
+        add("file", [["ab\u20ac\r\n", L1 // 7 + 2], ["end\rmid\n", 1]], newline="universal")
+        add("pipe", [["x", 1], ["ab\u20ac\r\n", L1 // 7 + 2]], newline="universal")
+        add("file", sweep_runs("\u00e9", 1, L1), fenc="latin-1")
+        add("pipe", sweep_runs("\u20ac", 1, L1), fenc="utf-16")
+        add("file", sweep_runs("\u00e9", 0, L2), enc="latin-1")
+        add("stdin", sweep_runs("\U0001F600", 1 + seed % 3, L1))
+    else:
+        for k in range(4):
+            for kind in ("file", "pipe", "proxy", "memory"):
+                for ch in ("\u00e9", "\u20ac", "\U0001F600"):
+                    for total in (L1, L2, L4, L8):
+                        add(kind, sweep_runs(ch, k, total))
+            for kind in fp:
+                add(kind, [["x", k], ["ab\u20ac\r\n", L8 // 7 + 2], ["end\rmid\n", 1]], newline="universal")
+                add(kind, [["x", k], ["ab\u20ac\r\n", L2 // 7 + 2]], newline="raw")
+                add(kind, sweep_runs("\u00e9", k, L2), fenc="latin-1")
+                add(kind, sweep_runs("\u20ac", k, L2), fenc="utf-16")
+                add(kind, sweep_runs("\u00e9", k, L2), enc="latin-1")
+                add(kind, [["x", k], ["\u00e9a\r\n", L2 // 3]], fenc="cp1252", newline="universal")
+            add("stdin", sweep_runs("\U0001F600", k, L2))
+            add("pipe", sweep_runs("\U0001F600", k, 66000))
+    return cs
+
+
+STDIN_HELPER = r"""
+import sys
+sys.path.insert(0, %r)
+from invoke import Context
+from invoke.runners import Local
+class FastLocal(Local):
+    input_sleep = %r
+r = FastLocal(Context()).run("cat > %s", hide=True, encoding="utf-8", echo_stdin=False)
+sys.exit(r.exited)
+"""
+
+
+def first_difference(got, want):
+    i = next((j for j, (x, y) in enumerate(zip(got, want)) if x != y), min(len(got), len(want)))
+    return {"got_len": len(got), "want_len": len(want), "first_difference_at": i,
+            "got": repr(got[max(0, i - 4):i + 8]), "want": repr(want[max(0, i - 4):i + 8])}
+
+
+def real_stream_case(c, runner_cls):
+    import tempfile
+    content = content_of(c["content"])
+    enc = c["enc"]
+    fd, sink = tempfile.mkstemp(prefix="c13-sink-", dir=core.BUILD)
+    os.close(fd)
+    label = {k: v for k, v in c.items() if k != "content"}
+    label["content"] = c["content"]
+    try:
+        if c["kind"] == "stdin":
+            # in_stream not given: the helper interpreter's own sys.stdin, redirected from a regular file
+            import subprocess
+            fd, path = tempfile.mkstemp(prefix="c13-in-", dir=core.BUILD)
+            with os.fdopen(fd, "wb") as fh:
+                fh.write(content.encode("utf-8"))
+            try:
+                with open(path, "rb") as fh:
+                    p = subprocess.run([sys.executable, "-c", STDIN_HELPER % (core.REPO, FAST_SLEEP, sink)], stdin=fh,
+                                       capture_output=True, timeout=60, env=dict(os.environ, PYTHONUTF8="1"))
+            except subprocess.TimeoutExpired:
+                return {"case": label, "what": "helper interpreter with redirected stdin did not finish within 60 s"}
+            finally:
+                os.unlink(path)
+            if p.returncode != 0:
+                return {"case": label, "what": {"helper_exit": p.returncode,
+                                                "stderr": p.stderr[-400:].decode("utf-8", "replace")}}
+            want = content.encode("utf-8")
+            got = open(sink, "rb").read()
+            return None if got == want else {"case": label, "what": dict(first_difference(got, want),
+                                                                         where="bytes received by the child")}
+        st = {"kind": c["kind"], "fenc": c["fenc"], "newline": c["newline"]}
+        stream, ref, cleanup = open_stream(st, content)
+        mirror = io.StringIO()
+        try:
+            r = rc.run_real("cat > %s" % sink, bound=60.0, runner_cls=runner_cls, in_stream=stream, out_stream=mirror,
+                            err_stream=io.StringIO(), echo_stdin=bool(c["echo"]), encoding=enc)
+        finally:
+            cleanup()
+        if r["hang"]:
+            return {"case": label, "what": "run() did not end in time: %s" % r["hang_what"]}
+        if r["outcome"] != "Result" or r["exited"] != 0:
+            return {"case": label, "what": "outcome %s %s, exit code %r" % (r["outcome"], r.get("thread_excs"), r["exited"])}
+        want = ref.encode(enc)
+        got = open(sink, "rb").read()
+        if got != want:
+            return {"case": label, "what": dict(first_difference(got, want), where="bytes received by the child")}
+        mwant = ref if c["echo"] else ""
+        if mirror.getvalue() != mwant:
+            return {"case": label, "what": dict(first_difference(mirror.getvalue(), mwant), where="text mirrored to out_stream")}
+        return None
+    finally:
+        try:
+            os.unlink(sink)
+        except OSError:
+            pass
 
 
 def real_cases(tier):
